@@ -751,6 +751,75 @@ def run_c19_tagging(res, tier, seed):
                               {"note": "HlTag::Module is never produced by ide::ide::semantic_highlighting::highlight"})
 
 
+def run_c19_ranges_e2e(res, tier, seed):
+    """the stream the server SENDS for textDocument/semanticTokens/range, asked with LSP positions: whole lines selected the
+    way editors do it - end column far beyond the line (it means the line end), start column beyond the line too - on lines
+    with wide characters, followed by lines that begin with an identifier.  The decoded answer must be exactly the tokens of
+    the full answer that lie on the selected lines."""
+    import shutil, lsp
+    lsp.build_glas()
+    rng = random.Random(seed * 31 + 19)
+    base = os.path.join(common.ROOT, "work", f"c19-{os.getpid()}")
+    shutil.rmtree(base, ignore_errors=True)
+    wide = ["ß", "ℝ", "💣", "é", "𝒳", "a", " "]
+    def noise(n):
+        return "".join(rng.choice(wide) for _ in range(n))
+    BIG = [100000, 4294967295, 1000]
+    try:
+        for k in range(3 if tier == "quick" else 40):
+            root = f"{base}/p{k}"
+            os.makedirs(root + "/src")
+            open(root + "/gleam.toml", "w").write('name = "p"\n')
+            text = ("pub type Shape {\n" + f"  Circle // {noise(rng.randrange(1, 12))}\n" + "Square\n" + f"  Dot // {noise(rng.randrange(1, 30))}\n}}\n"
+                    + f"// {noise(rng.randrange(1, 40))}\n" + "pub fn one() {\n" + f"  \"{noise(rng.randrange(1, 9))}\"\n" + "one()\n" + f"  Circle // {noise(5)}\n}}\n"
+                    + f"pub fn area(s) {{ // {noise(rng.randrange(1, 20))}\n" + "  case s {\n" + f"    Circle -> one() // {noise(3)}\nSquare -> one()\n    Dot -> 2\n  }}\n}}\n")
+            open(root + "/src/m.gleam", "w").write(text)
+            uri = f"file://{root}/src/m.gleam"
+            nlines = text.count("\n")
+            c = lsp.Lsp(root)
+            try:
+                if c.initialize() is None:
+                    continue
+                c.notify("textDocument/didOpen", {"textDocument": {"uri": uri, "languageId": "gleam", "version": 1, "text": text}})
+                r = c.request("textDocument/semanticTokens/full", {"textDocument": {"uri": uri}}, timeout=30)
+                data = ((r or {}).get("result") or {}).get("data")
+                if data is None:
+                    continue
+                def decode(d):
+                    out, line, col = [], 0, 0
+                    for i in range(0, len(d) - 4, 5):
+                        dl, dc, ln, ty = d[i], d[i + 1], d[i + 2], d[i + 3]
+                        line += dl
+                        col = dc if dl else col + dc
+                        out.append((line, col, ln, ty))
+                    return out
+                full = decode(data)
+                res.cov["evaluations"] += 1
+                asks = []
+                for _ in range(10 if tier == "quick" else 40):
+                    l1 = rng.randrange(0, nlines); l2 = rng.randrange(l1, nlines)
+                    big = rng.choice(BIG)
+                    asks.append(((l1, 0, l2, big), [t for t in full if l1 <= t[0] <= l2], "whole lines, end column beyond the line"))
+                    if l2 > l1:
+                        asks.append(((l1, big, l2, big), [t for t in full if l1 < t[0] <= l2], "start and end column beyond their lines"))
+                        asks.append(((l1, 0, l2, 0), [t for t in full if l1 <= t[0] < l2], "up to the start of a line"))
+                for (l1, c1, l2, c2), want, what in asks:
+                    rr = c.request("textDocument/semanticTokens/range", {"textDocument": {"uri": uri}, "range": {"start": {"line": l1, "character": c1}, "end": {"line": l2, "character": c2}}}, timeout=30)
+                    res.cov["evaluations"] += 1
+                    if rr is None or "error" in rr:
+                        got = None
+                    else:
+                        got = decode(((rr.get("result") or {}).get("data")) or [])
+                    if got != want:
+                        res.add_violation("C19/range-request-over-lsp", f"semanticTokens/range {l1}:{c1}-{l2}:{c2} ({what}) decodes to {got if got is None else got[:6]}; the tokens of the full answer on those lines are {want[:6]}",
+                                          {"text": text, "range": [l1, c1, l2, c2], "answer": rr if rr is None or "error" in rr else got, "expected": want})
+                        break
+            finally:
+                c.close()
+    finally:
+        shutil.rmtree(base, ignore_errors=True)
+
+
 PROOF_MODULES = {"C13": ["Glas.Props.C13"], "C14": ["Glas.Props.C14"], "C19": ["Glas.Props.C19", "Glas.Props.C19Tags"]}
 
 
@@ -771,6 +840,7 @@ def run(prop, res, tier, seed):
         run_c14_e2e(res, tier, seed)
     if prop == "C19":
         run_c19_tagging(res, tier, seed)
+        run_c19_ranges_e2e(res, tier, seed)
     if prop == "C13":
         import p_server
         p_server.run_c13_blackbox(res, tier, seed)
